@@ -19,7 +19,11 @@ CHECK-TRANSPARENT
                cannot be reported: the functions of check.py apply no
                de-duplicating or re-ordering operation (dict / set / frozenset
                / sorted / reversed / .sort / .reverse / dict.fromkeys /
-               OrderedDict / Counter) to data taken from a state.
+               OrderedDict / Counter) to data taken from a state whose result,
+               as a sequence, reaches the order check (an argument of
+               visit_btree / visit_bucket / check_sorted, or anything inside
+               them; _reordered_reaching_check).  Re-ordering the walker's
+               work list of nodes is not re-ordering keys.
 """
 import ast
 
@@ -291,6 +295,149 @@ def _state_taint(tree):
     return taint
 
 
+SINK_METHODS = ("visit_btree", "visit_bucket", "check_sorted")
+
+
+def _reorders(c, tn, taint):
+    """the call re-orders / de-duplicates data taken from a state"""
+    name = c.func.id if isinstance(c.func, ast.Name) else None
+    meth = c.func.attr if isinstance(c.func, ast.Attribute) else None
+    if name in REORDERING and any(_tainted(a, tn, taint) for a in list(c.args) + [k.value for k in c.keywords]):
+        return "%s(...)" % name
+    if meth in REORDERING_METHODS and (
+            _tainted(c.func.value, tn, taint) or any(_tainted(a, tn, taint) for a in c.args)):
+        return ".%s()" % meth
+    return None
+
+
+def _reordered_reaching_check(tree, sources, taint):
+    """ids of the re-ordering sites whose result - as a sequence - reaches the
+    order check: an argument of visit_btree / visit_bucket / check_sorted, or
+    anything inside those methods.  The taint is on the *sequence*: it follows
+    assignment, list() / tuple() / slicing, extend / +=, lists built in a loop
+    over the sequence, arguments, returns (and unpacking of a returned tuple);
+    it does not follow a single element taken out of it (pop(), x[i], the loop
+    variable): re-ordering a work list of nodes does not re-order their keys.
+    In-place methods (.sort(), .reverse()) taint their receiver."""
+    fns = [n for n in ast.walk(tree) if isinstance(n, ast.FunctionDef)]
+    byname = {}
+    for fn in fns:
+        byname.setdefault(fn.name, []).append(fn)
+    R = {fn: {} for fn in fns}          # fn -> name -> set of source ids
+    rets = {}                           # function name -> set of source ids
+
+    def rex(e, fn):
+        """source ids carried by the expression as a sequence"""
+        rn = R[fn]
+        if isinstance(e, ast.Name):
+            return set(rn.get(e.id, ()))
+        if id(e) in sources and not (isinstance(e, ast.Call) and isinstance(e.func, ast.Attribute)
+                                     and e.func.attr in ("sort", "reverse")):
+            return {id(e)}
+        if isinstance(e, ast.Call):
+            f = e.func
+            nm = f.id if isinstance(f, ast.Name) else f.attr if isinstance(f, ast.Attribute) else None
+            out = set()
+            if isinstance(f, ast.Name) and nm in ("list", "tuple", "iter", "enumerate", "zip", "reversed", "sorted",
+                                                  "set", "frozenset", "dict"):
+                for a in e.args:
+                    out |= rex(a, fn)
+            if nm in rets:
+                out |= rets[nm]
+            return out
+        if isinstance(e, ast.Subscript) and isinstance(e.slice, ast.Slice):
+            return rex(e.value, fn)
+        if isinstance(e, (ast.Tuple, ast.List)):
+            out = set()
+            for x in e.elts:
+                out |= rex(x, fn)
+            return out
+        if isinstance(e, ast.IfExp):
+            return rex(e.body, fn) | rex(e.orelse, fn)
+        if isinstance(e, ast.BoolOp):
+            out = set()
+            for x in e.values:
+                out |= rex(x, fn)
+            return out
+        if isinstance(e, ast.BinOp) and isinstance(e.op, ast.Add):
+            return rex(e.left, fn) | rex(e.right, fn)
+        if isinstance(e, (ast.ListComp, ast.GeneratorExp)):
+            out = set()
+            for g in e.generators:
+                out |= rex(g.iter, fn)
+            return out
+        if isinstance(e, ast.Starred):
+            return rex(e.value, fn)
+        return set()
+
+    def add(fn, name, ids):
+        if ids - R[fn].get(name, set()):
+            R[fn].setdefault(name, set()).update(ids)
+            return True
+        return False
+    changed, rounds = True, 0
+    while changed and rounds < 30:
+        changed = False
+        rounds += 1
+        for fn in fns:
+            for st in ast.walk(fn):
+                if isinstance(st, ast.Assign):
+                    ids = rex(st.value, fn)
+                    if ids:
+                        for t in st.targets:
+                            for n in ast.walk(t):
+                                if isinstance(n, ast.Name):
+                                    changed |= add(fn, n.id, ids)
+                elif isinstance(st, ast.AugAssign) and isinstance(st.target, ast.Name):
+                    ids = rex(st.value, fn)
+                    if ids:
+                        changed |= add(fn, st.target.id, ids)
+                elif isinstance(st, ast.For):
+                    ids = rex(st.iter, fn)
+                    if ids:
+                        for c in ast.walk(st):
+                            if isinstance(c, ast.Call) and isinstance(c.func, ast.Attribute) and \
+                                    c.func.attr in ("append", "extend", "insert") and isinstance(c.func.value, ast.Name):
+                                changed |= add(fn, c.func.value.id, ids)
+                elif isinstance(st, ast.Return) and st.value is not None:
+                    ids = rex(st.value, fn)
+                    if ids - rets.get(fn.name, set()):
+                        rets.setdefault(fn.name, set()).update(ids)
+                        changed = True
+                if isinstance(st, ast.Call):
+                    f = st.func
+                    if isinstance(f, ast.Attribute) and isinstance(f.value, ast.Name):
+                        if f.attr == "extend":
+                            ids = set()
+                            for a in st.args:
+                                ids |= rex(a, fn)
+                            if ids:
+                                changed |= add(fn, f.value.id, ids)
+                        if f.attr in ("sort", "reverse") and id(st) in sources:
+                            changed |= add(fn, f.value.id, {id(st)})
+                    cn = f.id if isinstance(f, ast.Name) else f.attr if isinstance(f, ast.Attribute) else None
+                    for g in byname.get(cn, ()):
+                        params = [a.arg for a in g.args.args]
+                        if params and params[0] == "self" and isinstance(f, ast.Attribute):
+                            params = params[1:]
+                        for pn, a in zip(params, st.args):
+                            ids = rex(a, fn)
+                            if ids:
+                                changed |= add(g, pn, ids)
+    reaching = set()
+    for fn in fns:
+        inside = fn.name in SINK_METHODS
+        for c in ast.walk(fn):
+            if inside and id(c) in sources:
+                reaching.add(id(c))
+            if inside and isinstance(c, ast.Name) and c.id in R[fn]:
+                reaching |= R[fn][c.id]
+            if isinstance(c, ast.Call) and isinstance(c.func, ast.Attribute) and c.func.attr in SINK_METHODS:
+                for a in list(c.args) + [k.value for k in c.keywords]:
+                    reaching |= rex(a, fn)
+    return reaching
+
+
 def tables(tree):
     """evaluate the module-level statements that only compute tables"""
     ev = Evaluator()
@@ -367,38 +514,39 @@ def check(res):
     # ---- CHECK-TRANSPARENT -------------------------------------------------------
     taint = _state_taint(tree)
     m = 0
+    sources = {}          # id -> (fn, call / comprehension node, text)
     for fn in ast.walk(tree):
         if not isinstance(fn, ast.FunctionDef):
             continue
         tn = taint.get(fn, set())
         for c in ast.walk(fn):
-            if not isinstance(c, ast.Call):
-                continue
-            m += 1
-            name = c.func.id if isinstance(c.func, ast.Name) else None
-            meth = c.func.attr if isinstance(c.func, ast.Attribute) else None
-            bad = None
-            if name in REORDERING and any(_tainted(a, tn, taint) for a in list(c.args) + [k.value for k in c.keywords]):
-                bad = "%s(...)" % name
-            elif meth in REORDERING_METHODS and (
-                    _tainted(c.func.value, tn, taint) or any(_tainted(a, tn, taint) for a in c.args)):
-                bad = ".%s()" % meth
-            if bad:
-                res.findings.add(dict(
-                    rule="CHECK-TRANSPARENT", function=fn.name, file=REL, line=c.lineno,
-                    construct="%s applied to state data in %s" % (bad, fn.name),
-                    detail="data on its way from a node's state to the order check passes through "
-                           "an operation that removes duplicates or changes the order (%s): a "
-                           "duplicated or misplaced key can no longer be reported"
-                           % pyfront.unparse(c)[:60], path=[]))
-        for c in ast.walk(fn):
-            if isinstance(c, (ast.DictComp, ast.SetComp)) and any(
+            if isinstance(c, ast.Call):
+                m += 1
+                bad = _reorders(c, tn, taint)
+                if bad:
+                    sources[id(c)] = (fn, c, bad)
+            elif isinstance(c, (ast.DictComp, ast.SetComp)) and any(
                     _tainted(g.iter, tn, taint) for g in c.generators):
-                res.findings.add(dict(
-                    rule="CHECK-TRANSPARENT", function=fn.name, file=REL, line=c.lineno,
-                    construct="dict / set comprehension over state data in %s" % fn.name,
-                    detail="a comprehension that removes duplicates sits between the state and the "
-                           "order check", path=[]))
+                sources[id(c)] = (fn, c, "dict / set comprehension")
+    reaching = _reordered_reaching_check(tree, sources, taint)
+    for sid in sorted(reaching, key=lambda k: sources[k][1].lineno):
+        fn, c, bad = sources[sid]
+        if isinstance(c, ast.Call):
+            res.findings.add(dict(
+                rule="CHECK-TRANSPARENT", function=fn.name, file=REL, line=c.lineno,
+                construct="%s applied to state data in %s" % (bad, fn.name),
+                detail="data on its way from a node's state to the order check passes through "
+                       "an operation that removes duplicates or changes the order (%s): a "
+                       "duplicated or misplaced key can no longer be reported"
+                       % pyfront.unparse(c)[:60], path=[]))
+        else:
+            res.findings.add(dict(
+                rule="CHECK-TRANSPARENT", function=fn.name, file=REL, line=c.lineno,
+                construct="dict / set comprehension over state data in %s" % fn.name,
+                detail="a comprehension that removes duplicates sits between the state and the "
+                       "order check", path=[]))
+    res.extra["check_py_reordering_sites"] = len(sources)
+    res.extra["check_py_reordering_sites_reaching_the_order_check"] = len(reaching)
     res.count("CHECK-TRANSPARENT", m)
     res.floor("calls examined in check.py", m, 40)
     res.extra["check_py_table_statements_skipped"] = ev.skipped
